@@ -7,10 +7,15 @@
         exact dyadic arithmetic (extracted [enum_dy]) and every Iteration reported by
         the implementation is checked against the property with the extracted
         checkers [c12_check] / [c13_check]                      -> PROPFAIL
-     2. the same query is replayed on the extracted binary64 instance of the model;
-        integer geometry (permutation validity, int_matrix, offsets, error_max bits,
-        min/max rows, keys of every Q-value row, windows, granularity and score bits)
-        must agree exactly, probabilities within 1e-9 relative   -> DIFF
+     2. the same query is replayed on the extracted binary64 instance of the model,
+        the hash maps of every step being visited in the iteration order the
+        implementation reports through its `verif-hooks` accessor (TfmOrd.v); integer
+        geometry (permutation validity, int_matrix, offsets, error_max bits, min/max rows,
+        keys of every Q-value row, windows, granularity and score bits) AND every
+        probability (all Q-value rows by checksum, the last row, the reported range, the
+        converged flag) must agree bit for bit; only for steps whose tables are too large
+        for the order to be printed (`ord=-`) the probabilities are compared within 1e-9
+        relative                                                  -> DIFF
    One verdict line per case: `<id> OK | <id> PROPFAIL <detail> | <id> DIFF <detail>`. *)
 open Tfm_model
 
@@ -20,7 +25,15 @@ let rec pos_of_int n =
   if n = 1 then XH else if n land 1 = 0 then XO (pos_of_int (n lsr 1)) else XI (pos_of_int (n lsr 1))
 let z_of_int n = if n = 0 then Z0 else if n > 0 then Zpos (pos_of_int n) else Zneg (pos_of_int (-n))
 let z_ten = z_of_int 10
-let z_of_string (s : string) : z =
+let z_of_int64 (n : int64) : z =
+  (* magnitude bit by bit (works for min_int too: the magnitude is taken unsigned) *)
+  let rec pos (u : int64) : positive =
+    if Int64.equal u 1L then XH
+    else if Int64.equal (Int64.logand u 1L) 0L then XO (pos (Int64.shift_right_logical u 1))
+    else XI (pos (Int64.shift_right_logical u 1)) in
+  if Int64.equal n 0L then Z0
+  else if Int64.compare n 0L > 0 then Zpos (pos n) else Zneg (pos (Int64.neg n))
+let z_of_string_slow (s : string) : z =
   let neg = String.length s > 0 && s.[0] = '-' in
   let acc = ref Z0 in
   String.iteri (fun i c ->
@@ -29,6 +42,11 @@ let z_of_string (s : string) : z =
         acc := Z.add (Z.mul !acc z_ten) (z_of_int (Char.code c - 48))
       end) s;
   if neg then Z.opp !acc else !acc
+(* decimal integer -> Z; values that fit in an int64 take the fast path *)
+let z_of_string (s : string) : z =
+  match Int64.of_string_opt s with
+  | Some n -> z_of_int64 n
+  | _ -> z_of_string_slow s
 let rec int64_of_pos = function
   | XH -> 1L
   | XO p -> Int64.shift_left (int64_of_pos p) 1
@@ -54,7 +72,8 @@ let zlist_eq a b = List.length a = List.length b && List.for_all2 Z.eqb a b
 
 type ostate = {
   o_perm : int list; o_offs : z list; o_em : z; o_im : z list list; o_minr : z list; o_maxr : z list;
-  o_dig : (int * z * z * z * float) list;     (* n, min key, max key, key sum, value sum *)
+  o_dig : (int * z * z * z * float * int64) list;   (* n, min key, max key, key sum, value sum, value checksum *)
+  o_ord : z list list option;                 (* keys of the rows 0..M-2 in hash-map iteration order *)
   o_last : (z * F64.t) list;
   o_win : (z * z) option;
 }
@@ -64,7 +83,7 @@ type oiter = OPanic | OIt of { g : F64.t; lo : F64.t; hi : F64.t; conv : bool; s
 let parse_state s : ostate option =
   if s = "-" then None else
   match String.split_on_char '|' s with
-  | [perm; offs; em; im; minr; maxr; dig; last; win] ->
+  | [perm; offs; em; im; minr; maxr; dig; last; win; ord] ->
       let zl x = List.map z_of_string (split ',' x) in
       Some {
         o_perm = List.map int_of_string (split ',' perm);
@@ -72,12 +91,15 @@ let parse_state s : ostate option =
         o_im = List.map zl (split '/' im);
         o_minr = zl minr; o_maxr = zl maxr;
         o_dig = List.map (fun d -> match String.split_on_char ':' d with
-            | [n; a; b; ks; vs] -> (int_of_string n, z_of_string a, z_of_string b, z_of_string ks, float_of_bits_string vs)
+            | [n; a; b; ks; vs; ck] ->
+                (int_of_string n, z_of_string a, z_of_string b, z_of_string ks, float_of_bits_string vs, Int64.of_string ck)
             | _ -> failwith "bad digest") (split '/' dig);
         o_last = List.map (fun e -> match String.split_on_char ':' e with
             | [k; v] -> (z_of_string k, f64_of_string v) | _ -> failwith "bad last row") (split ',' last);
         o_win = (if win = "-" then None else match String.split_on_char ':' win with
             | [a; b] -> Some (z_of_string a, z_of_string b) | _ -> failwith "bad window");
+        o_ord = (if ord = "-" then None
+                 else Some (List.map (fun r -> List.map z_of_string (split ',' r)) (String.split_on_char '/' ord)));
       }
   | _ -> failwith ("bad state " ^ s)
 
@@ -94,6 +116,11 @@ let parse_iter s : oiter =
 
 (* ---------- comparison of one step's state with the model ---------- *)
 
+(* order-independent checksum of a row: wrapping sum of bits(v) * (2 key + 1) (as in the harness) *)
+let checksum_of_row (row : (z * F64.t) list) : int64 =
+  List.fold_left (fun c (k, v) ->
+      Int64.add c (Int64.mul (int64_of_z (f64_to_bits v)) (Int64.add (Int64.mul (int64_of_z k) 2L) 1L))) 0L row
+
 let digest_of_row (row : (z * F64.t) list) =
   match row with
   | [] -> (0, Z0, Z0, Z0, 0.0)
@@ -103,7 +130,9 @@ let digest_of_row (row : (z * F64.t) list) =
       let vs = List.fold_left (fun a (_, v) -> a +. float_of_f64 v) 0.0 row in
       (n, fst (List.hd row), fst (List.nth row (n - 1)), ks, vs)
 
-let compare_state step (st : ostate) (it : F64.t iter_out) : string option =
+(* [exact]: the model visited the hash maps of this step in the reported order, so every
+   probability must agree bit for bit; otherwise within the relative tolerance *)
+let compare_state step (exact : bool) (st : ostate) (it : F64.t iter_out) : string option =
   let g = it.io_geom in
   let fail s = Some (Printf.sprintf "step=%d %s" step s) in
   if not (zlist_eq st.o_offs g.g_off) then fail "offsets"
@@ -119,7 +148,7 @@ let compare_state step (st : ostate) (it : F64.t iter_out) : string option =
     if List.length mrows <> List.length st.o_dig then fail "qvalues-row-count"
     else begin
       let bad = ref None in
-      List.iteri (fun i ((n, a, b, ks, vs), row) ->
+      List.iteri (fun i ((n, a, b, ks, vs, ck), row) ->
           if !bad = None then begin
             let (n', a', b', ks', vs') = digest_of_row row in
             if n <> n' || not (Z.eqb a a') || not (Z.eqb b b') || not (Z.eqb ks ks') then
@@ -127,6 +156,8 @@ let compare_state step (st : ostate) (it : F64.t iter_out) : string option =
                              (string_of_z a) (string_of_z b) n' (string_of_z a') (string_of_z b'))
             else if not (close vs vs') then
               bad := fail (Printf.sprintf "qvalues[%d]-mass impl=%.17g model=%.17g" i vs vs')
+            else if exact && not (Int64.equal ck (checksum_of_row row)) then
+              bad := fail (Printf.sprintf "qvalues[%d]-bits (values differ in binary64; mass impl=%.17g model=%.17g)" i vs vs')
           end) (List.combine st.o_dig mrows);
       if !bad <> None then !bad
       else begin
@@ -135,12 +166,34 @@ let compare_state step (st : ostate) (it : F64.t iter_out) : string option =
         else if not (List.for_all2 (fun (k, _) (k', _) -> Z.eqb k k') st.o_last lastm) then fail "last-row-keys"
         else if not (List.for_all2 (fun (_, v) (_, v') -> close (float_of_f64 v) (float_of_f64 v')) st.o_last lastm)
         then fail "last-row-values"
+        else if exact && not (List.for_all2 (fun (_, v) (_, v') -> Z.eqb (f64_to_bits v) (f64_to_bits v')) st.o_last lastm)
+        then fail "last-row-bits"
         else None
       end
     end
   end
 
+(* the iteration orders reported for the steps of a run ([] = not reported: key order) *)
+let ordss_of (oits : oiter list) : z list list list =
+  List.map (function OIt { st = Some { o_ord = Some o; _ }; _ } -> o | _ -> []) oits
+
+(* Some true = the model replayed this step in the reported order (bit-exact comparison);
+   Some false = no order reported (tolerance); None = the reported order is not a
+   permutation of the keys of the model's rows *)
+let exactness (oit : oiter) (it : F64.t iter_out) : bool option =
+  match oit with
+  | OIt { st = Some { o_ord = Some o; _ }; _ } ->
+      if o = [] then Some true
+      else if f64_ords_ok o it.io_rows then Some true else None
+  | _ -> Some false
+
+let bits_eq a b =
+  Z.eqb (f64_to_bits a) (f64_to_bits b) || (Float.is_nan (float_of_f64 a) && Float.is_nan (float_of_f64 b))
+
 (* ---------- main ---------- *)
+
+(* steps compared bit for bit / with the tolerance (printed on stderr at the end) *)
+let n_exact = ref 0 and n_tol = ref 0
 
 let dy_exn name = function Some d -> d | None -> failwith ("non-finite " ^ name)
 
@@ -226,7 +279,7 @@ let () =
                     | _ -> ()) oits;
                 let qdy = f64_to_dy q in
                 if prop = "c12" then begin
-                  let model = f64_pv_run (nat_of_int steps) rows64 perm bg64 q f64_tenth_c in
+                  let model = f64_pv_run_ord (nat_of_int steps) (ordss_of oits) rows64 perm bg64 q f64_tenth_c in
                   let last_conv = ref None in
                   List.iteri (fun i oit ->
                       let mit = List.nth_opt model i in
@@ -246,18 +299,25 @@ let () =
                           (match mit with
                            | None -> df (Printf.sprintf "step=%d model-has-no-such-iteration" i)
                            | Some (Ok it) ->
+                               (match exactness oit it with
+                                | None -> df (Printf.sprintf "step=%d iteration-order-not-a-permutation-of-the-model-keys" i)
+                                | Some exact ->
+                               if exact then incr n_exact else incr n_tol;
                                if not (Z.eqb (f64_to_bits it.io_gran) (f64_to_bits o.g)) then df (Printf.sprintf "step=%d granularity" i)
                                else if not (Z.eqb (f64_to_bits it.io_score) (f64_to_bits o.score)) then df (Printf.sprintf "step=%d score" i)
                                else if not (close (float_of_f64 it.io_start) (float_of_f64 o.lo)) then
                                  df (Printf.sprintf "step=%d pmin impl=%.17g model=%.17g" i (float_of_f64 o.lo) (float_of_f64 it.io_start))
                                else if not (close (float_of_f64 it.io_end) (float_of_f64 o.hi)) then
                                  df (Printf.sprintf "step=%d pmax impl=%.17g model=%.17g" i (float_of_f64 o.hi) (float_of_f64 it.io_end))
+                               else if exact && not (bits_eq it.io_start o.lo && bits_eq it.io_end o.hi) then
+                                 df (Printf.sprintf "step=%d range-bits impl=[%h,%h] model=[%h,%h]" i (float_of_f64 o.lo) (float_of_f64 o.hi)
+                                       (float_of_f64 it.io_start) (float_of_f64 it.io_end))
                                else if it.io_conv <> o.conv
-                                    && not (Float.abs (float_of_f64 o.hi -. float_of_f64 o.lo) <= 1e-12 *. float_of_f64 o.hi) then
+                                    && (exact || not (Float.abs (float_of_f64 o.hi -. float_of_f64 o.lo) <= 1e-12 *. float_of_f64 o.hi)) then
                                  df (Printf.sprintf "step=%d converged" i)
                                else (match o.st with
-                                   | Some st -> (match compare_state i st it with Some s -> df s | None -> ())
-                                   | None -> ())
+                                   | Some st -> (match compare_state i exact st it with Some s -> df s | None -> ())
+                                   | None -> ()))
                            | Some (Panic n) -> df (Printf.sprintf "step=%d model-panic-%d" i (int_of_nat n))
                            | Some _ -> df (Printf.sprintf "step=%d model-error" i))) oits;
                   if List.length model > List.length oits
@@ -289,7 +349,7 @@ let () =
                         | _ -> ())
                    | _ -> ());
                   let model = match w0m with
-                    | Ok w -> f64_sc_run (nat_of_int steps) rows64 perm bg64 q f64_tenth_c w
+                    | Ok w -> f64_sc_run_ord (nat_of_int steps) (ordss_of oits) rows64 perm bg64 q f64_tenth_c w
                     | _ -> [] in
                   let pfl = float_of_f64 q in
                   let knife = ref false in
@@ -334,14 +394,20 @@ let () =
                             (match mit with
                              | None -> df (Printf.sprintf "step=%d model-has-no-such-iteration" i)
                              | Some (Ok it) ->
-                                 (* knife edge: some cumulative sum of the last row is within 1e-9 of p *)
+                                 (match exactness oit it with
+                                  | None -> df (Printf.sprintf "step=%d iteration-order-not-a-permutation-of-the-model-keys" i)
+                                  | Some exact ->
+                                 if exact then incr n_exact else incr n_tol;
+                                 (* knife edge (only for a step replayed in key order, where the sums agree within
+                                    a tolerance only): some cumulative sum of the last row is within 1e-9 of p *)
                                  let lastm = (match List.rev it.io_rows with r :: _ -> r | [] -> []) in
-                                 let _ = List.fold_left (fun acc (_, v) ->
+                                 if not exact then
+                                   ignore (List.fold_left (fun acc (_, v) ->
                                      let acc = acc +. float_of_f64 v in
-                                     if close acc pfl then knife := true; acc) 0.0 (List.rev lastm) in
+                                     if close acc pfl then knife := true; acc) 0.0 (List.rev lastm));
                                  if not (Z.eqb (f64_to_bits it.io_gran) (f64_to_bits o.g)) then df (Printf.sprintf "step=%d granularity" i)
                                  else (match o.st with
-                                     | Some st -> (match compare_state i st it with Some s -> df s | None -> ())
+                                     | Some st -> (match compare_state i exact st it with Some s -> df s | None -> ())
                                      | None -> ());
                                  if not !knife then begin
                                    if not (Z.eqb (f64_to_bits it.io_score) (f64_to_bits o.score)) then
@@ -349,13 +415,16 @@ let () =
                                    else if not (close (float_of_f64 it.io_start) (float_of_f64 o.lo)
                                                 && close (float_of_f64 it.io_end) (float_of_f64 o.hi)) then
                                      df (Printf.sprintf "step=%d range" i)
+                                   else if exact && not (bits_eq it.io_start o.lo && bits_eq it.io_end o.hi) then
+                                     df (Printf.sprintf "step=%d range-bits impl=[%h,%h] model=[%h,%h]" i (float_of_f64 o.lo) (float_of_f64 o.hi)
+                                           (float_of_f64 it.io_start) (float_of_f64 it.io_end))
                                    else if it.io_conv <> o.conv then df (Printf.sprintf "step=%d converged" i)
                                    else (match o.st with
                                        | Some { o_win = Some (a, b); _ } ->
                                            if not (Z.eqb a (fst it.io_win) && Z.eqb b (snd it.io_win)) then
                                              df (Printf.sprintf "step=%d next-window" i)
                                        | _ -> ())
-                                 end
+                                 end)
                              | Some (Panic n) -> df (Printf.sprintf "step=%d model-panic-%d" i (int_of_nat n))
                              | Some _ -> df (Printf.sprintf "step=%d model-error" i))) oits;
                   if not !knife && List.length model > List.length oits
@@ -389,4 +458,6 @@ let () =
         print_endline (id ^ " " ^ verdict)
       end
     done
-  with End_of_file -> ()
+  with End_of_file ->
+    if Sys.getenv_opt "TFM_DRIVER_STATS" <> None then
+      Printf.eprintf "steps compared bit-exactly: %d, with tolerance: %d\n" !n_exact !n_tol
